@@ -99,11 +99,19 @@ fn job_activity(v: &Value) -> Activity {
 fn observe(rc: &RouteContext) -> Value {
     let sched: Vec<Value> =
         rc.route().tour.all_activities().map(|a| json!([a.schedule.arrival, a.schedule.departure])).collect();
+    let (latest_arrival, waiting) = vrp_core::construction::enablers::verif_schedule_caches(rc);
+    let loads: Vec<Value> = vrp_core::construction::features::verif_capacity_caches::<SingleDimLoad>(rc)
+        .into_iter()
+        .map(|(c, p, f)| json!([c.map(|v| v.value), p.map(|v| v.value), f.map(|v| v.value)]))
+        .collect();
     json!({
         "schedule": sched,
         "total_distance": rc.state().get_total_distance().copied(),
         "total_duration": rc.state().get_total_duration().copied(),
         "is_stale": rc.is_stale(),
+        "latest_arrival": latest_arrival,
+        "waiting": waiting,
+        "loads": loads,
     })
 }
 
@@ -199,11 +207,45 @@ fn goal_order(case: &Value) {
     println!("{}", serde_json::to_string(&json!({"order": table})).unwrap());
 }
 
+/// Time-dependent routing replay through the public constructor.
+fn time_aware(case: &Value) {
+    let floats = |v: &Value| v.as_array().unwrap().iter().map(|x| x.as_f64().unwrap()).collect::<Vec<_>>();
+    let matrices = case["matrices"]
+        .as_array()
+        .unwrap()
+        .iter()
+        .map(|m| MatrixData::new(0, Some(m["timestamp"].as_f64().unwrap()), floats(&m["durations"]), floats(&m["distances"])))
+        .collect::<Vec<_>>();
+    let provider = create_matrix_transport_cost(matrices).unwrap();
+    let vehicle = Vehicle {
+        profile: Profile::default(),
+        costs: costs(&Value::Null),
+        dimens: Default::default(),
+        details: vec![VehicleDetail {
+            start: Some(VehiclePlace { location: 0, time: TimeInterval { earliest: Some(0.), latest: None } }),
+            end: None,
+        }],
+    };
+    let driver = Driver { costs: costs(&Value::Null), dimens: Default::default(), details: vec![] };
+    let fleet = Fleet::new(vec![Arc::new(driver)], vec![Arc::new(vehicle)], |_| |_| 0);
+    let rc = RouteContext::new(fleet.actors[0].clone());
+    let (from, to) = (case["from"].as_u64().unwrap() as usize, case["to"].as_u64().unwrap() as usize);
+    let q = case["query"].as_f64().unwrap();
+    let out = json!({
+        "distance": provider.distance(rc.route(), from, to, TravelTime::Departure(q)),
+        "duration": provider.duration(rc.route(), from, to, TravelTime::Departure(q)),
+    });
+    println!("{}", serde_json::to_string(&out).unwrap());
+}
+
 fn main() {
     let path = std::env::args().nth(1).expect("usage: verif-replay <case.json>");
     let case: Value = serde_json::from_str(&std::fs::read_to_string(path).unwrap()).unwrap();
     if case["kind"] == "goal_order" {
         return goal_order(&case);
+    }
+    if case["kind"] == "time_aware" {
+        return time_aware(&case);
     }
 
     let closed = case["closed"].as_bool().unwrap_or(true);
@@ -300,6 +342,44 @@ fn main() {
     let jobs: Vec<Value> = case["jobs"].as_array().cloned().unwrap_or_default();
     let rc = build_route(&jobs);
     let mut out = json!({"pre": observe(&rc)});
+    // stale flag through deep_copy: `RouteContext` is stale after the mutations above; accept_route_state resets the flag
+    {
+        let copy_of_stale = rc.deep_copy();
+        let mut fresh = rc.deep_copy();
+        goal.accept_route_state(&mut fresh);
+        let copy_of_fresh = fresh.deep_copy();
+        out["deep_copy"] = json!({
+            "stale_original": rc.is_stale(), "stale_copy": copy_of_stale.is_stale(),
+            "fresh_original": fresh.is_stale(), "fresh_copy": copy_of_fresh.is_stale(),
+            "copy_schedule": observe(&copy_of_stale)["schedule"],
+        });
+    }
+    // total cost of a solution consisting of this route (optionally with explicitly given tour totals)
+    {
+        use vrp_core::models::{Extras, Problem};
+        let mut priced = rc.deep_copy();
+        if let Some(td) = case.get("set_total_distance").and_then(|v| v.as_f64()) {
+            priced.state_mut().set_total_distance(td);
+        }
+        if let Some(t) = case.get("set_total_duration").and_then(|v| v.as_f64()) {
+            priced.state_mut().set_total_duration(t);
+        }
+        let logger: vrp_core::rosomaxa::utils::InfoLogger = Arc::new(|_| ());
+        let fleet_arc = Arc::new(Fleet::new(fleet.drivers.clone(), fleet.vehicles.clone(), |_| |_| 0));
+        let jobs_index = vrp_core::models::problem::Jobs::new(&fleet_arc, vec![], transport.as_ref(), &logger).unwrap();
+        let problem = Arc::new(Problem {
+            fleet: fleet_arc,
+            jobs: Arc::new(jobs_index),
+            locks: vec![],
+            goal: Arc::new(GoalContextBuilder::with_features(&[f_cost.clone()]).unwrap().build().unwrap()),
+            activity: activity.clone(),
+            transport: transport.clone(),
+            extras: Arc::new(Extras::default()),
+        });
+        let mut ictx = InsertionContext::new_empty(problem, Arc::new(vrp_core::rosomaxa::utils::Environment::default()));
+        ictx.solution.routes.push(priced);
+        out["total_cost"] = json!(ictx.get_total_cost());
+    }
 
     if let Some(target) = case.get("target").filter(|t| !t.is_null()) {
         let leg = case["leg"].as_u64().unwrap_or(0) as usize;
